@@ -906,7 +906,10 @@ fn gen_specs(rng: &mut Rng, thorough: bool) -> Vec<Spec> {
                             _ => *rng.pick(&[1024usize, 4096, 65536, 65537, (1 << 20) + 1]),
                         });
                     }
-                    if thorough && cfg == "-" {
+                    // no assumed limit at all: a message just over the 16 MiB *default* must go out untouched
+                    // (nothing may fall back to the default when the assumption was removed)
+                    let over_default = if thorough { true } else { matches!((cfg.as_str(), k), ("-", "inline") | ("-", "bcast") | ("-", "call") | ("u", "proxy") | ("u", "push") | ("u", "notify") | ("u", "off")) };
+                    if over_default && (cfg == "-" || cfg == "u") {
                         totals.push((16 << 20) + 1 + rng.below(1000) as usize);
                     }
                 }
